@@ -89,6 +89,7 @@ func c15Wire(w *W) {
 		return
 	}
 	self, peer := protoOf(kind), protoOf(peerKind[kind])
+	w.Op("%s over %s, mangos %ss; codec peer announces %#x", kind, tran, role, peer)
 	// --- handshake, both directions
 	hs := w.Do("peer handshake", func() (interface{}, error) {
 		if _, err := pc.Write(wcHeader(peer)); err != nil {
@@ -281,6 +282,7 @@ func c15Handshake(w *W) {
 	bad := wcHeader(peer)
 	bad[pos] = byte(int(bad[pos]) + delta)
 	w.Fault("hs-corrupt")
+	w.Op("%s over %s, mangos %ss; peer header % x (byte %d deviates)", kind, tran, role, bad, pos)
 	hs := w.Do("peer handshake", func() (interface{}, error) {
 		if _, err := pc.Write(bad); err != nil {
 			return nil, err
